@@ -218,3 +218,61 @@ PLANS["C04"] = {
     "level_note": "Trusted: the linearizability checker (vcore::lin), the probe placement rule (never inside a lock), the tick clock at the API boundary.",
     "design_ref": "3/C04",
 }
+
+
+def sweep_steps():
+    return [{"name": "udp_sweep", "bin": "udp_swarm", "args": ["--mode", "sweep"]},
+            {"name": "http_sweep", "bin": "http_swarm", "args": ["--mode", "sweep"]},
+            {"name": "ws_sweep", "bin": "ws_swarm", "args": ["--mode", "sweep"]}]
+
+
+PLANS["C10"] = {
+    "title": "Peers and offers expire exactly at their deadline, never earlier",
+    "level": "exploration",
+    "engine": "swarm_diff",
+    "technique": "deterministic boundary-grid runtime monitor (cleans at deadline-1 / deadline / deadline+1, all representations, re-announce offsets) plus the time component of the random-history differential engines, all three trackers, mock clock",
+    "packages": ["vudp", "vhttp", "vws"],
+    "parallel": 8,
+    "steps": lambda tier, seed: sweep_steps() + (
+        swarm_steps("udp_swarm", "udp_swarm", "quick", quick_budget=10) + swarm_steps("http_swarm", "http_swarm", "quick", quick_budget=10) + swarm_steps("ws_swarm", "ws_swarm", "quick", quick_budget=10)
+        if tier == "quick" else
+        shards("udp_swarm", "udp_swarm", 4, ["--histories", "100000000", "--budget_s", "100"]) + shards("http_swarm", "http_swarm", 4, ["--histories", "100000000", "--budget_s", "100"]) + shards("ws_swarm", "ws_swarm", 4, ["--histories", "100000000", "--budget_s", "100"])),
+    "min_evaluations": {"quick": 300000, "thorough": 3000000},
+    "assumptions": ["clock values stay below u32::MAX (136 years of uptime)", "deadline = the handling worker's time sample + max age, computed over mathematical integers in the reference"],
+    "level_text": "Exploration with an exhaustive boundary grid: for each tracker's storage, 8 maximum ages (0..u32::MAX) x 4 announce times x 8 swarm sizes (inline and heap) x 3 positions x seeder/leecher x 5 re-announce offsets x 2 families (udp/http), and peer + pending-offer expiry for ws, with cleaning passes one second before, at and after the deadline and presence read back by scrape and observer announce / late answer; plus random histories with deadlines and cleans interleaved arbitrarily (focus generator with extreme ages).",
+    "level_note": "Trusted: reference models; mock clock hook behind ServerStartInstant::seconds_elapsed (http/ws read the clock inside clean / announce).",
+    "design_ref": "3/C10",
+}
+
+PLANS["C11"] = {
+    "title": "Access list is enforced on announce, on cleaning and across reloads",
+    "level": "exploration",
+    "engine": "swarm_diff",
+    "technique": "runtime monitors: reload-sequence monitor on update_access_list with live caches vs reference list semantics (enumerated reload faults), and clean-vs-list differential histories on the three storages",
+    "packages": ["vproto", "vudp", "vhttp", "vws"],
+    "parallel": 8,
+    "steps": lambda tier, seed: [{"name": "access_list", "bin": "access_list", "args": []}] + (
+        swarm_steps("udp_swarm", "udp_swarm", "quick", quick_budget=10) + swarm_steps("http_swarm", "http_swarm", "quick", quick_budget=10) + swarm_steps("ws_swarm", "ws_swarm", "quick", quick_budget=10)
+        if tier == "quick" else
+        shards("udp_swarm", "udp_swarm", 4, ["--histories", "100000000", "--budget_s", "100"]) + shards("http_swarm", "http_swarm", 4, ["--histories", "100000000", "--budget_s", "100"]) + shards("ws_swarm", "ws_swarm", 4, ["--histories", "100000000", "--budget_s", "100"])),
+    "min_evaluations": {"quick": 300000, "thorough": 3000000},
+    "assumptions": ["a line is well-formed iff, after trimming, it is 40 hex digits"],
+    "level_text": "Exploration with enumerated reload faults: sequences of reloads of generated list files (valid in every spelling, a bad line at any position, missing, directory, non-UTF-8) through the real update_access_list while caches created earlier keep answering; after every reload all probe hashes are queried in all modes through both access paths and must follow the list in force (the previous one after a failed reload). On the storages, histories with list reloads and cleans check that the next clean removes exactly the forbidden torrents.",
+    "level_note": "Trusted: reference list parser; the announce-time gate itself lives in the socket workers and is decided by the live engines.",
+    "design_ref": "3/C11",
+}
+
+PLANS["C20"] = {
+    "title": "UDP operator reports are faithful; scrape export is replaced atomically",
+    "level": "fault_enumeration",
+    "engine": "swarm_diff",
+    "technique": "differential runtime monitor of totals / folded PeerAdded-PeerRemoved stream / export content vs reference model; concurrent-reader monitor; process abort at every enumerated export step",
+    "packages": ["vudp"],
+    "parallel": 8,
+    "steps": lambda tier, seed: [{"name": "udp_export", "bin": "udp_export", "args": []}] + udp_swarm_steps(tier),
+    "min_evaluations": {"quick": 100000, "thorough": 1000000},
+    "assumptions": ["a crash is a process abort; power loss (no fsync) is outside the statement", "torrents dropped by the access list in the very pass that writes the export may or may not be listed (don't-care)"],
+    "level_text": "Fault enumeration + exploration: (1) after every cleaning pass of random histories (statistics and exports on) the four totals, the per-peer-id tallies obtained by folding the real StatisticsMessage stream with the statistics worker's rule, and the parsed export file equal the reference model; (2) a reader polling the export path during hundreds of exports with stretched gaps only ever sees complete exports in order; (3) a child process is aborted at every individual export step (create, each line, before flush, before rename, after rename) for several sizes and shapes and the path must hold the previous or the new complete file.",
+    "level_note": "Trusted: reference model, export-step probes (never inside a lock).",
+    "design_ref": "3/C20",
+}
